@@ -1,7 +1,9 @@
 import Hive.Model.TypedStore
 import Hive.Model.TypedConc
+import Hive.Model.TypedRef
 /-!
-# Line-protocol driver state for C06: one `TypedValue` (`tv …`), one `TypedStore` (`ts …`) and the
+# Line-protocol driver state for C06: one `TypedValue[uint64]` (`tv …`), one `TypedValue[*T]` (`tp …`),
+one `TypedStore` (`ts …`) and the
 trace predicates of the concurrent part (`conc …`).
 -/
 namespace Hive.Typed
@@ -10,8 +12,9 @@ open Hive.Proto
 structure DState where
   tv : St UInt64
   ts : Store
+  tp : RState
 
-def dinit : DState := { tv := fresh none, ts := [] }
+def dinit : DState := { tv := fresh none, ts := [], tp := rinit }
 
 def parseCsv (s : String) : Option (List Nat) :=
   if s == "-" then some [] else
@@ -20,6 +23,7 @@ def parseCsv (s : String) : Option (List Nat) :=
 def dstepLine (s : DState) (toks : List String) : DState × String :=
   match toks with
   | "tv" :: rest => let (tv', o) := stepLine s.tv rest; ({ s with tv := tv' }, o)
+  | "tp" :: rest => let (tp', o) := rstepLine s.tp rest; ({ s with tp := tp' }, o)
   | "ts" :: rest => let (ts', o) := sstepLine s.ts rest; ({ s with ts := ts' }, o)
   | ["conc", "counter", final, incs, gets] =>
     match final.toNat?, parseCsv incs, parseCsv gets with
